@@ -189,6 +189,14 @@ def dependence_nodes(cond, fn_hir):
                 t = hir.strip(t["e"])
             if t.get("k") == "Path" and t["to"].get("res") == "local":
                 defs.setdefault(t["to"]["id"], []).append(n["r"])
+        elif k == "MethodCall" and n.get("args") and n.get("name") in ("push", "push_str", "extend", "extend_from_slice", "insert", "insert_str", "append"):
+            # a container filled through `&mut self` methods depends on what is put into it
+            t = hir.strip(n["recv"])
+            while t.get("k") in ("Field", "Index", "AddrOf") or (t.get("k") == "Unary" and t.get("op") == "Deref"):
+                t = hir.strip(t["e"])
+            if t.get("k") == "Path" and t["to"].get("res") == "local":
+                for a_ in n["args"]:
+                    defs.setdefault(t["to"]["id"], []).append(a_)
         elif k == "Match":
             # pattern bindings depend on the scrutinee
             for a in n["arms"]:
